@@ -109,6 +109,7 @@ def plan_mutator(plan, msg_proc):
                     ret = tail_result_cache.pop(id(exhausted_gen))
 
                 result_stack.append(ret)
+                exception = None
 
                 if id(exhausted_gen) in tail_cache:
                     gen = tail_cache.pop(id(exhausted_gen))
